@@ -138,59 +138,7 @@ func runC02(c *Ctx) {
 		}
 		// the counter must live in the one client object shared by all proxy functions: a pointer to
 		// a client that is a local *copy* (value receiver, `cl := *c`) gives every copy its own counter
-		if r.TClient != nil {
-			for _, fn := range p.Funcs {
-				if pkgOf(fn) != p.Root.Pkg {
-					continue
-				}
-				allInstrsRaw(fn, func(in ssa.Instruction) {
-					st, ok := in.(*ssa.Store)
-					if !ok {
-						return
-					}
-					pt, ok := st.Val.Type().Underlying().(*types.Pointer)
-					if !ok || pt.Elem() != types.Type(r.TClient) {
-						return
-					}
-					if _, isField := st.Addr.(*ssa.FieldAddr); !isField {
-						return
-					}
-					for _, o := range c.origins(st.Val) {
-						al, ok := o.Root.(*ssa.Alloc)
-						if !ok || len(o.Fields) != 0 {
-							continue
-						}
-						for _, ref := range *al.Referrers() {
-							if s2, ok := ref.(*ssa.Store); ok && s2.Addr == ssa.Value(al) {
-								if k, isK := s2.Val.(*ssa.Const); isK && k.Value == nil {
-									continue
-								}
-								// a copy of an existing client: the value comes from a by-value parameter
-								// (value receiver) or from dereferencing a client pointer; a value built by
-								// a constructor helper and stored once is a construction, not a copy
-								isCopy := false
-								for _, o2 := range []apath{{Root: s2.Val}} {
-									switch x := o2.Root.(type) {
-									case *ssa.Parameter:
-										if x.Type() == types.Type(r.TClient) {
-											isCopy = true
-										}
-									case *ssa.UnOp:
-										if x.Op == token.MUL && x.Type() == types.Type(r.TClient) {
-											isCopy = true
-										}
-									}
-								}
-								if !isCopy {
-									continue
-								}
-								c.bad("R02.1", fmt.Sprintf("%s: client object behind a proxy function", fname(fn)), c.ipos(st), "a pointer to a copy of the client is kept (value receiver or struct copy): each copy has its own id counter, so calls of different methods in flight together carry the same id and one takes the other's response")
-							}
-						}
-					}
-				})
-			}
-		}
+		c.clientCopyRule("R02.1", false)
 		// the request literal's id in the client call path (the call function, its helpers and closures)
 		nid := 0
 		isMint := func(v ssa.Value) bool {
@@ -269,6 +217,8 @@ func runC02(c *Ctx) {
 	// ---- R02.8
 	c.rule("R02.9", "a request handed to the connection loop is registered or failed: the hand-over is a rendezvous (unbuffered queue), so no request can be left in a buffer when the loop exits and every call completes")
 	c.unbufferedQueue("R02.9")
+	c.rule("R02.10", "a call accepted while the connection is unusable is failed at once, never registered: the unusable mark is set before every loss signal and cleared only after a new socket is installed")
+	c.lossSignalRule("R02.10")
 	c.rule("R02.8", "the argument list of the reflective handler call is allocated per invocation (never memory shared between calls)")
 	c.freshArgList("R02.8")
 }
@@ -784,5 +734,70 @@ func (c *Ctx) inflightRemovalRule(rule string) {
 		before := mustPrecedeIP(u.At, c.isCompletion, 0)
 		after := mustFollowFrom(u.At, c.isCompletion) == nil
 		c.check(before || after, rule, construct, c.ipos(u.At), "accompanied by a completion on every path", "an in-flight entry is removed without a completion being delivered to its caller on every path: that call is never answered — neither by a response nor by the failer on connection loss or close")
+	}
+}
+
+// clientCopyRule: no pointer to a copy of the client object (value receiver, struct copy) is kept
+// behind a proxy function: each copy would have its own id counter. With report, a discharged
+// obligation is emitted when no such copy exists.
+func (c *Ctx) clientCopyRule(rule string, report bool) {
+	p, r := c.P, c.R
+	nbad := 0
+	if r.TClient != nil {
+		for _, fn := range p.Funcs {
+			if pkgOf(fn) != p.Root.Pkg {
+				continue
+			}
+			allInstrsRaw(fn, func(in ssa.Instruction) {
+				st, ok := in.(*ssa.Store)
+				if !ok {
+					return
+				}
+				pt, ok := st.Val.Type().Underlying().(*types.Pointer)
+				if !ok || pt.Elem() != types.Type(r.TClient) {
+					return
+				}
+				if _, isField := st.Addr.(*ssa.FieldAddr); !isField {
+					return
+				}
+				for _, o := range c.origins(st.Val) {
+					al, ok := o.Root.(*ssa.Alloc)
+					if !ok || len(o.Fields) != 0 {
+						continue
+					}
+					for _, ref := range *al.Referrers() {
+						if s2, ok := ref.(*ssa.Store); ok && s2.Addr == ssa.Value(al) {
+							if k, isK := s2.Val.(*ssa.Const); isK && k.Value == nil {
+								continue
+							}
+							// a copy of an existing client: the value comes from a by-value parameter
+							// (value receiver) or from dereferencing a client pointer; a value built by
+							// a constructor helper and stored once is a construction, not a copy
+							isCopy := false
+							for _, o2 := range []apath{{Root: s2.Val}} {
+								switch x := o2.Root.(type) {
+								case *ssa.Parameter:
+									if x.Type() == types.Type(r.TClient) {
+										isCopy = true
+									}
+								case *ssa.UnOp:
+									if x.Op == token.MUL && x.Type() == types.Type(r.TClient) {
+										isCopy = true
+									}
+								}
+							}
+							if !isCopy {
+								continue
+							}
+							nbad++
+							c.bad(rule, fmt.Sprintf("%s: client object behind a proxy function", fname(fn)), c.ipos(st), "a pointer to a copy of the client is kept (value receiver or struct copy): each copy has its own id counter, so calls of different methods in flight together carry the same id and one takes the other's response")
+						}
+					}
+				}
+			})
+		}
+	}
+	if report && nbad == 0 {
+		c.ok(rule, "client object behind the proxy functions", "-", "no copy of the client object is kept")
 	}
 }
